@@ -1009,12 +1009,11 @@ func keepStandin(name, src string) {
 	}
 }
 
-// fragileProof: the baseline proof needed the second stage (another solver or a
-// random seed) or more than a second of solver time.
+// fragileProof: the baseline proof was found only with a non-default random seed, or
+// took more than 3 s of the solver budget.
 func fragileProof(le LedgerEntry) bool {
-	switch le.Solver {
-	case "z3-new", "trivial", "ground-eval", "":
-		return le.Seconds > 1.0
+	if strings.Contains(le.Solver, "/seed") {
+		return true // only a non-default random seed found the proof
 	}
-	return true
+	return le.Seconds > 3.0
 }
